@@ -43,15 +43,10 @@ func (x *g) genService(i int, used map[string]bool) {
 		x.s.AddFeature("service-error")
 	}
 	if len(x.s.Schemes) > 0 {
-		switch x.r.Intn(4) {
+		switch x.r.Intn(3) {
 		case 0:
 			sv.Security = x.genRequirements(2)
 			x.s.AddFeature("service-security")
-		case 1:
-			if len(x.s.API.Security) > 0 {
-				sv.NoSec = true
-				x.s.AddFeature("service-nosecurity")
-			}
 		}
 	}
 	nm := x.r.Range(1, 3)
@@ -183,7 +178,13 @@ func (x *g) genMethod(sv *spec.Service, j int, used map[string]bool) {
 		e := &spec.ErrorDecl{Name: fmt.Sprintf("%s_%d", x.r.Pick("not_found", "bad_thing", "too_many", "invalid"), k)}
 		switch x.r.Intn(6) {
 		case 0:
-			if ts := x.plainObjectTypes(); ts != nil {
+			if x.o.Runtime {
+				// a dedicated type: sharing a type between errors and payloads/results is a listed C01 finding
+				ut := x.genObjectType("type")
+				ut.Name = x.typeName(strings.Title(strings.ReplaceAll(e.Name, "_", "")) + "Err")
+				e.Type = &spec.Type{Kind: spec.Ref, Ref: ut.Name}
+				x.s.AddFeature("error-usertype")
+			} else if ts := x.plainObjectTypes(); ts != nil {
 				e.Type = &spec.Type{Kind: spec.Ref, Ref: ts[x.r.Intn(len(ts))].Name}
 				x.s.AddFeature("error-usertype")
 			}
